@@ -30,7 +30,7 @@ UNITS = {
         widths=[16, 8],
         prelude='preludes/ctrl.rs',
         specs='contracts/ctrl.vspec',
-        lemmas=['lemmas/ctrl_lemmas.rs', 'lemmas/mask_lemmas.rs', 'lemmas/probe_lemmas.rs', 'lemmas/loop_lemmas.rs', 'lemmas/accounting_lemmas.rs'],
+        lemmas=['lemmas/ctrl_lemmas.rs', 'lemmas/mask_lemmas.rs', 'lemmas/probe_lemmas.rs', 'lemmas/loop_lemmas.rs', 'lemmas/accounting_lemmas.rs', 'lemmas/reach_lemmas.rs'],
         extra='ctrl_rules',
         items=[
             I(TAG, r'^impl Tag$', 'is_full', impl='Tag'),
